@@ -26,6 +26,7 @@ func init() {
 	workloadFeatures["c15"] = featC15
 	workloadFeatures["avg-unavailable"] = featAvgUnavailable
 	workloadFeatures["ungraded-snapshot"] = featUngradedSnapshot
+	workloadFeatures["mint-key"] = featMintKey
 	workloadFeatures["bank-mixed-conversion"] = featBankMixedConversion
 	workloadFeatures["overflow-conversion"] = featOverflow
 	workloadFeatures["spr-impostor"] = featImpostor
@@ -269,12 +270,19 @@ func featC03(m *gen.Mixed, ts *gen.TieSetup, p *modelParams) {
 				}
 				var txs []forge.Tx
 				switch rng.Intn(13) {
-				case 11: // outputs that add up to the input only modulo 2^64 (two of 2^63)
+				case 11: // outputs that add up to the input only modulo 2^64 (four of 2^62; amounts of 2^63 and more are C08's hostile numbers)
 					x := bal / 2
-					txs = []forge.Tx{{From: a, Asset: fat2.PTickerUSD, Amount: x, To: []forge.Out{{Addr: sink, Amount: 1 << 63}, {Addr: ks[rng.Intn(len(ks))].FA(), Amount: 1 << 63}, {Addr: sink, Amount: x}}}}
+					var outs []forge.Out
+					for i := 0; i < 4; i++ { // four fresh recipients: nobody's balance leaves int64 even if the batch were executed
+						outs = append(outs, forge.Out{Addr: forge.NewKey(fmt.Sprintf("c03-wrap-%d-%d-%d-%d", p.Seed, h, n, i)).FA(), Amount: 1 << 62})
+					}
+					outs = append(outs, forge.Out{Addr: sink, Amount: x})
+					txs = []forge.Tx{{From: a, Asset: fat2.PTickerUSD, Amount: x, To: outs}}
 				case 12: // the same with every single amount inside int64
 					x := bal / 2
-					txs = []forge.Tx{{From: a, Asset: fat2.PTickerUSD, Amount: x, To: []forge.Out{{Addr: sink, Amount: 1<<63 - 1}, {Addr: ks[rng.Intn(len(ks))].FA(), Amount: 1<<63 - 1}, {Addr: sink, Amount: x + 2}}}}
+					txs = []forge.Tx{{From: a, Asset: fat2.PTickerUSD, Amount: x, To: []forge.Out{
+						{Addr: forge.NewKey(fmt.Sprintf("c03-wrapb-%d-%d-%d-0", p.Seed, h, n)).FA(), Amount: 1<<63 - 1},
+						{Addr: forge.NewKey(fmt.Sprintf("c03-wrapb-%d-%d-%d-1", p.Seed, h, n)).FA(), Amount: 1<<63 - 1}, {Addr: sink, Amount: x + 2}}}}
 				case 0: // exactly the balance in two steps
 					txs = []forge.Tx{forge.Transfer(a, fat2.PTickerUSD, bal-1, sink), forge.Transfer(a, fat2.PTickerUSD, 1, sink)}
 				case 1: // one unit too many over two steps
@@ -443,7 +451,8 @@ func featC13(m *gen.Mixed, ts *gen.TieSetup, p *modelParams) {
 						continue
 					}
 					txs := []forge.Tx{forge.Conversion(k.FA(), fat2.PTickerUSD, 1e8+uint64(rng.Intn(1e6)), dst)}
-					if n%3 == 2 {
+					if n%3 == 2 && !(dst == fat2.PTickerPEG && hh+2 < e.PEGPricing) {
+						// (destinations without a rate as a later transaction are one of C08's hostile kinds)
 						// the destination under test is not the first transaction of its batch: every conversion of
 						// a batch is subject to the admission rules, and one refusal refuses the batch
 						txs = append([]forge.Tx{forge.Conversion(k.FA(), fat2.PTickerUSD, 2e7+uint64(rng.Intn(1e6)), fat2.PTickerEUR)}, txs...)
@@ -456,6 +465,33 @@ func featC13(m *gen.Mixed, ts *gen.TieSetup, p *modelParams) {
 			})
 		}
 	}
+}
+
+// mintKey is the key of the substituted mint address of the mint-key scenario.
+func mintKey(seed int64) forge.Key { return forge.NewKey(fmt.Sprintf("mint-owner-%d", seed)) }
+
+// featMintKey: the minted supply goes to an address whose key the lab holds (node.GlobalMintAddress is a
+// package variable), and its owner spends: before the burn height, IN the burn block (a transfer, and a
+// conversion entered one block earlier), and after it. The burn removes what is left of the minted amounts
+// at the START of the burn block; what the owner tries to spend of them in that block is no longer there.
+func featMintKey(m *gen.Mixed, ts *gen.TieSetup, p *modelParams) {
+	e := m.W.Eras
+	k := mintKey(p.Seed)
+	sink := forge.NewKey(fmt.Sprintf("mint-sink-%d", p.Seed)).FA()
+	for h := e.V204 - 1; h <= e.V204Burn+2; h++ {
+		m.ForceGraded[h] = true
+	}
+	spend := func(h uint32, off int64, txs ...forge.Tx) {
+		m.Schedule(h, func(v *gen.View, s *forge.BlockSpec) {
+			s.Tx = append(s.Tx, forge.SignedBatch(txs, m.W.EntryTime(h)+off, k))
+		})
+	}
+	spend(e.V204+1, 100, forge.Transfer(k.FA(), fat2.PTickerUSD, 1000*1e8, sink))
+	spend(e.V204+2, 101, forge.Conversion(k.FA(), fat2.PTickerUSD, 500*1e8, fat2.PTickerEUR))
+	spend(e.V204Burn-1, 102, forge.Conversion(k.FA(), fat2.PTickerXBT, 1e7, fat2.PTickerUSD)) // executes in the burn block
+	spend(e.V204Burn, 103, forge.Transfer(k.FA(), fat2.PTickerUSD, 2000*1e8, sink))           // entered in the burn block
+	spend(e.V204Burn, 104, forge.Transfer(k.FA(), fat2.PTickerEUR, 1*1e8, sink))              // never minted: still there
+	spend(e.V204Burn+1, 105, forge.Transfer(k.FA(), fat2.PTickerUSD, 1*1e8, sink))
 }
 
 // featUngradedSnapshot: the first snapshot height from 2.0.2 on has too few records of either kind
